@@ -1362,6 +1362,53 @@ theorem fan_monitor_accepts_ephemeral_runs (kind : Nat → Kind) {t : Topo} {ls 
   have := fsimE_run (kind := kind) (finv_init t) hsim h
   simp [fholdsOn, fmonitor, ffoldl_visible, this.ok]
 
+/-! ### one pair alone -/
+
+/-- The addressing of a single pair without fan-outs. -/
+def Topo.single : Topo := { pair := fun _ => 0, grp := fun _ => none, copies := fun _ => [] }
+
+theorem frun_of_runG {σ : State → Label → Option State} {s s' : State} {ls : List Label} (S : FState)
+    (hS : S.peers 0 = s) (h : runG σ s ls = some s') :
+    ∃ S', frun σ Topo.single S (ls.map .msg) = some S' ∧ S'.peers 0 = s' := by
+  induction ls generalizing s S with
+  | nil => simp only [runG, Option.some.injEq] at h; subst h; exact ⟨S, rfl, hS⟩
+  | cons l ls ih =>
+    simp only [runG] at h
+    cases h1 : σ s l with
+    | none => simp [h1] at h
+    | some s1 =>
+      simp only [h1] at h
+      obtain ⟨S', h2, h3⟩ := ih (S.setPeer 0 s1) (by simp) h
+      refine ⟨S', ?_, h3⟩
+      simp only [List.map_cons, frun, fstep, Topo.single, hS, h1]
+      exact h2
+
+theorem fvisible_map_msg (ls : List Label) : fvisible (ls.map .msg) = (visible ls).map .msg := by
+  induction ls with
+  | nil => rfl
+  | cons l ls ih =>
+    simp only [List.map_cons, fvisible, List.filterMap_cons, visible] at ih ⊢
+    cases hv : l.vis with
+    | none => simp [FLabel.vis, hv, ih]
+    | some e => simp [FLabel.vis, hv, ih]
+
+/-- The monitor of one pair (what the driver evaluates per direction on a case with one client and one
+server): it accepts what an observer sees of every run of the pair model. -/
+theorem pair_monitor_accepts_runs {kind : Nat → Kind} {ls : List Label} {s : State}
+    (h : run kind init ls = some s) : fholdsOn (Topo.single.cfg kind) ((visible ls).map .msg) = true := by
+  rw [run_eq_runG] at h
+  obtain ⟨S', h2, _⟩ := frun_of_runG finit rfl h
+  rw [← fvisible_map_msg]
+  exact fan_monitor_accepts_runs h2
+
+/-- …and of every run of the model of temporary sessions (stateless streamable server). -/
+theorem pair_monitor_accepts_ephemeral_runs (kind : Nat → Kind) {ls : List Label} {s : State}
+    (h : runE init ls = some s) : fholdsOn (Topo.single.cfg kind) ((visible ls).map .msg) = true := by
+  rw [runE_eq_runG] at h
+  obtain ⟨S', h2, _⟩ := frun_of_runG finit rfl h
+  rw [← fvisible_map_msg]
+  exact fan_monitor_accepts_ephemeral_runs kind h2
+
 /-! ### the monitor is not vacuous across a fan-out -/
 
 /-- The log of the seeded change C03-m10 (the notifying method returns before its per-session sends are
